@@ -60,11 +60,17 @@ class StatefulInterpreter(Pytree):
             invals = jax_util.safe_map(env.read, eqn.invars)
             subfuns, params = eqn.primitive.get_bind_params(eqn.params)
             args = subfuns + invals
-            # Allow the stateful handler to handle the primitive.
-            if stateful_handler.handles(eqn.primitive):
-                outvals = stateful_handler.dispatch(eqn.primitive, *args, **params)
-            else:
-                outvals = eqn.primitive.bind(*args, **params)
+            # Re-bind under the configuration context the equation was traced in
+            # (as `jax.core.eval_jaxpr` does): some primitives pick their behaviour
+            # from the ambient config at bind time.
+            with eqn.ctx.manager:
+                # Allow the stateful handler to handle the primitive.
+                if stateful_handler.handles(eqn.primitive):
+                    outvals = stateful_handler.dispatch(
+                        eqn.primitive, *args, **params
+                    )
+                else:
+                    outvals = eqn.primitive.bind(*args, **params)
             if not eqn.primitive.multiple_results:
                 outvals = [outvals]
             jax_util.safe_map(env.write, eqn.outvars, outvals)
